@@ -1,7 +1,7 @@
 (* C10 — Token manager custody, mint authority and role transfers are exact and gated.
    Statements only; proofs in Proofs/TMFacts.v. *)
 From Coq Require Import String List NArith Lia.
-From Ax Require Import Lib.Bytes Lib.Mvx Lib.Keccak Model.Check Model.Env Model.Gateway Model.TokenManager Model.TMUpgrade Model.Its Proofs.TMFacts Proofs.TMCustody Proofs.TMUpgradeFacts
+From Ax Require Import Lib.Bytes Lib.Mvx Lib.Keccak Model.Check Model.Env Model.Gateway Model.TokenManager Model.TMUpgrade Model.Its Proofs.TMFacts Proofs.TMCustody Proofs.TMProposals Proofs.TMUpgradeFacts
      Proofs.ItsMore Proofs.ItsTmGeneric Gen.Generated.
 Import ListNotations.
 Open Scope N_scope.
@@ -156,6 +156,35 @@ Print Assumptions c10_transfer_role.
 Print Assumptions c10_accept_role.
 Print Assumptions c10_roles_frame.
 
+(* proposals over whole histories (Proofs/TMProposals.v, written after seed C10-r15): the table of pending proposals is touched by the two
+   propose and the two accept endpoints only, in exactly this way (all sixteen operations); and for every pair (from, to) and role r <> 0 the
+   successful accepts by `to` of r from `from` never outnumber the successful proposals of exactly r by `from` to `to` (plus what the slot held
+   at the start) -- in every history: a replaced or used proposal authorises nothing, an accepted proposal cannot be replayed *)
+Theorem c10_proposals_changed_only_by : forall t l o t' l' r e, run_endpoint t l o = Some (t', l', r, e) -> pchange t t' o.
+Proof. exact run_endpoint_pchange. Qed.
+Theorem c10_proposal_step : forall f to r, r <> 0 -> forall t l o,
+  accepted_ok f to r t l o + holds f to r (fst (fst (tstep t l o))) <= holds f to r t + proposed_ok f to r t l o.
+Proof. exact proposal_step. Qed.
+Theorem c10_accepts_never_outnumber_proposals : forall f to r, r <> 0 -> forall ops t l,
+  total (accepted_ok f to r) t l ops <= holds f to r t + total (proposed_ok f to r) t l ops.
+Proof. exact accepts_never_outnumber_proposals. Qed.
+Print Assumptions c10_proposals_changed_only_by.
+Print Assumptions c10_accepts_never_outnumber_proposals.
+
+(* non-vacuity: the operator (who is also a minter) proposes operatorship and then mintership to the same account: the second proposal
+   replaces the first, so accepting operatorship is refused, accepting mintership succeeds once and is refused the second time:
+   one counted proposal of MINTER, one counted accept; no counted accept of OPERATOR although one was proposed *)
+Example c10_proposals_nonvacuous :
+  let self := be_enc 32 32 in let a := be_enc 32 11 in let b := be_enc 32 13 in
+  let t := {| tm_service := be_enc 32 9; tm_type := T_NATIVE; tm_tid := zeros 32; tm_token := str "MTK-abcdef"; tm_roles := [(a, N.lor MINTER OPERATOR)];
+              tm_proposed := []; tm_limit := 0; tm_in := []; tm_out := []; tm_pending := 0 |} in
+  let c who := {| t_self := self; t_caller := who; t_now := 0; t_value := no_value |} in
+  let ops := [TProposeOp (c a) b; TProposeMint (c a) b; TAcceptOp (c b) a; TAcceptMint (c b) a; TAcceptMint (c b) a] in
+  total (proposed_ok a b MINTER) t [] ops = 1 /\ total (accepted_ok a b MINTER) t [] ops = 1 /\
+  total (proposed_ok a b OPERATOR) t [] ops = 1 /\ total (accepted_ok a b OPERATOR) t [] ops = 0 /\
+  roles_of (fst (trun t [] ops)) b = MINTER /\ roles_of (fst (trun t [] ops)) a = OPERATOR.
+Proof. vm_compute. repeat split; reflexivity. Qed.
+
 Example pin_role_bits : gen_role_bits = [("MINTER", MINTER); ("OPERATOR", OPERATOR); ("FLOW_LIMITER", FLOW_LIMITER)]%string := eq_refl.
 Example pin_issue_cost : gen_tm_issue_cost = ISSUE_COST := eq_refl.
 Example pin_tm_types : map snd gen_tm_to_u8 = [T_NATIVE; T_MINT_BURN_FROM; T_LOCK_UNLOCK; T_LOCK_UNLOCK_FEE; T_MINT_BURN] := eq_refl.
@@ -214,3 +243,6 @@ Proof.
   repeat constructor; intros c E; cbn in E; inversion E; subst; vm_compute; discriminate.
 Qed.
 Check c10_identity_forever_in_world.
+
+Check c10_accepts_never_outnumber_proposals : forall f to r, r <> 0 -> forall ops t l,
+  total (accepted_ok f to r) t l ops <= holds f to r t + total (proposed_ok f to r) t l ops.
